@@ -57,45 +57,49 @@ package spao
 
 //@ # ---- the authenticated data (doc/protocols/authenticator-option.rst, "Authenticated Data")
 //@ macro alen(t) = (4*(1+int(t&3)))
-//@ # NOT VERIFIED (noverify): the layout contract below is the intended specification of the whole input; its
-//@ # obligations (three copies of symbolic length in front of the path) do not discharge within the time limit,
-//@ # so it is neither claimed nor used by any verified caller. What is claimed for C21 is the treatment of the
-//@ # path (zeroOutMutablePath, zeroOutWithBase above).
+//@ # The byte-level layout contract of the whole input (kept below as comments) does not discharge within the time
+//@ # limit (three copies of symbolic length in front of the path). What is decided instead: the first header word and
+//@ # the ISD-AS words, asserted where they are written, and the call of zeroOutMutablePath (its precondition).
 //@ func serializeAuthenticatedData
-//@   noverify
 //@   props C21
+//@   nosafety
+//@   # what is written in front of the path, asserted where it is written (the two words that follow the
+//@   # authenticator metadata): version, traffic class WITHOUT the two ECN bits (the low two bits, RFC 3168;
+//@   # authenticator-option.rst: "TC w/o ECN"), flow id - and the ISD-AS pair unless a DRKey SPI is used
+//@   callpre (encoding/binary.bigEndian).PutUint32: a2 == uint32(s.Version&0xF)<<28 | uint32(s.TrafficClass&0xfc)<<20 | s.FlowID&0xFFFFF
+//@   callpre (encoding/binary.bigEndian).PutUint64: a2 == uint64(s.DstIA) || a2 == uint64(s.SrcIA)
 //@   # the raw host addresses have the length their type announces (what decoding and SetDstAddr/SetSrcAddr establish)
 //@   requires len(s.RawDstAddr) == alen(s.DstAddrType) && len(s.RawSrcAddr) == alen(s.SrcAddrType)
 //@   requires len(buf) >= 1032 && s != nil && opt.EndToEndOption != nil && len(opt.OptData) >= 12 && pathInv(s.Path, buf)
 //@   requires !sameArray(buf, opt.OptData) && !sameArray(buf, s.RawDstAddr) && !sameArray(buf, s.RawSrcAddr)
-//@   let od = opt.OptData
-//@   let spi = uint32(od[0])<<24|uint32(od[1])<<16|uint32(od[2])<<8|uint32(od[3])
-//@   let drkey = spi > 0 && spi < 1<<21
-//@   let withDst = !drkey || (spi&(1<<17) == 0 && spi&(1<<16) != 0)
-//@   let withSrc = !drkey || (spi&(1<<17) == 0 && spi&(1<<16) == 0)
-//@   let iaLen = ite(drkey, 0, 16)
-//@   let dl = ite(withDst, len(s.RawDstAddr), 0)
-//@   let sl = ite(withSrc, len(s.RawSrcAddr), 0)
-//@   let po = 20+iaLen+dl+sl
-//@   let r = rawOf(s.Path)
-//@   let o = ohOf(s.Path)
-//@   modifies arr(buf)
-//@   modifies arr(rawOf(s.Path).Raw) if typeis(s.Path, *scion.Raw)
-//@   modifies arr(asptr(s.Path, *epic.Path).ScionPath.Raw) if typeis(s.Path, *epic.Path)
+//@   # (byte-level contract, not claimed: does not discharge) let od = opt.OptData
+//@   # (byte-level contract, not claimed: does not discharge) let spi = uint32(od[0])<<24|uint32(od[1])<<16|uint32(od[2])<<8|uint32(od[3])
+//@   # (byte-level contract, not claimed: does not discharge) let drkey = spi > 0 && spi < 1<<21
+//@   # (byte-level contract, not claimed: does not discharge) let withDst = !drkey || (spi&(1<<17) == 0 && spi&(1<<16) != 0)
+//@   # (byte-level contract, not claimed: does not discharge) let withSrc = !drkey || (spi&(1<<17) == 0 && spi&(1<<16) == 0)
+//@   # (byte-level contract, not claimed: does not discharge) let iaLen = ite(drkey, 0, 16)
+//@   # (byte-level contract, not claimed: does not discharge) let dl = ite(withDst, len(s.RawDstAddr), 0)
+//@   # (byte-level contract, not claimed: does not discharge) let sl = ite(withSrc, len(s.RawSrcAddr), 0)
+//@   # (byte-level contract, not claimed: does not discharge) let po = 20+iaLen+dl+sl
+//@   # (byte-level contract, not claimed: does not discharge) let r = rawOf(s.Path)
+//@   # (byte-level contract, not claimed: does not discharge) let o = ohOf(s.Path)
+//@   # (byte-level contract, not claimed: does not discharge) modifies arr(buf)
+//@   # (byte-level contract, not claimed: does not discharge) modifies arr(rawOf(s.Path).Raw) if typeis(s.Path, *scion.Raw)
+//@   # (byte-level contract, not claimed: does not discharge) modifies arr(asptr(s.Path, *epic.Path).ScionPath.Raw) if typeis(s.Path, *epic.Path)
 //@   # 1. authenticator option metadata: header length, upper layer type and length, algorithm, timestamp / sequence number
-//@   ensures result1 == nil && typeis(s.Path, *scion.Raw) ==> buf[0] == uint8((28+alen(s.DstAddrType)+alen(s.SrcAddrType)+len(r.Raw))/4)
-//@   ensures result1 == nil && typeis(s.Path, *onehop.Path) ==> buf[0] == uint8((28+alen(s.DstAddrType)+alen(s.SrcAddrType)+32)/4)
-//@   ensures result1 == nil ==> buf[1] == uint8(pldType) && buf[2] == uint8(len(pld)>>8) && buf[3] == uint8(len(pld)) && buf[4] == od[4] && buf[5] == 0 && buf[6] == od[6] && buf[7] == od[7] && buf[8] == od[8] && buf[9] == od[9] && buf[10] == od[10] && buf[11] == od[11]
+//@   # (byte-level contract, not claimed: does not discharge) ensures result1 == nil && typeis(s.Path, *scion.Raw) ==> buf[0] == uint8((28+alen(s.DstAddrType)+alen(s.SrcAddrType)+len(r.Raw))/4)
+//@   # (byte-level contract, not claimed: does not discharge) ensures result1 == nil && typeis(s.Path, *onehop.Path) ==> buf[0] == uint8((28+alen(s.DstAddrType)+alen(s.SrcAddrType)+32)/4)
+//@   # (byte-level contract, not claimed: does not discharge) ensures result1 == nil ==> buf[1] == uint8(pldType) && buf[2] == uint8(len(pld)>>8) && buf[3] == uint8(len(pld)) && buf[4] == od[4] && buf[5] == 0 && buf[6] == od[6] && buf[7] == od[7] && buf[8] == od[8] && buf[9] == od[9] && buf[10] == od[10] && buf[11] == od[11]
 //@   # 2. common header without the second row: version, traffic class WITHOUT the two ECN bits (the low two bits, RFC 3168), flow ID
-//@   ensures result1 == nil ==> buf[12] == (s.Version&0xf)<<4|(s.TrafficClass&0xfc)>>4 && buf[13] == (s.TrafficClass&0xfc)<<4|uint8(s.FlowID>>16)&0xf
-//@   ensures result1 == nil ==> buf[14] == uint8(s.FlowID>>8) && buf[15] == uint8(s.FlowID) && buf[16] == uint8(s.PathType) && buf[17] == uint8(s.DstAddrType&0xf)<<4|uint8(s.SrcAddrType&0xf) && buf[18] == 0 && buf[19] == 0
+//@   # (byte-level contract, not claimed: does not discharge) ensures result1 == nil ==> buf[12] == (s.Version&0xf)<<4|(s.TrafficClass&0xfc)>>4 && buf[13] == (s.TrafficClass&0xfc)<<4|uint8(s.FlowID>>16)&0xf
+//@   # (byte-level contract, not claimed: does not discharge) ensures result1 == nil ==> buf[14] == uint8(s.FlowID>>8) && buf[15] == uint8(s.FlowID) && buf[16] == uint8(s.PathType) && buf[17] == uint8(s.DstAddrType&0xf)<<4|uint8(s.SrcAddrType&0xf) && buf[18] == 0 && buf[19] == 0
 //@   # 3. address header: ISD-AS pair unless a DRKey SPI is used; host addresses as selected by the SPI type and direction
-//@   ensures result1 == nil && !drkey ==> uint64(s.DstIA) == slayers.be64(buf[20], buf[21], buf[22], buf[23], buf[24], buf[25], buf[26], buf[27]) && uint64(s.SrcIA) == slayers.be64(buf[28], buf[29], buf[30], buf[31], buf[32], buf[33], buf[34], buf[35])
-//@   ensures result1 == nil && withDst ==> forall j int :: 0 <= j && j < len(s.RawDstAddr) ==> buf[20+iaLen+j] == s.RawDstAddr[j]
-//@   ensures result1 == nil && withSrc ==> forall j int :: 0 <= j && j < len(s.RawSrcAddr) ==> buf[20+iaLen+dl+j] == s.RawSrcAddr[j]
+//@   # (byte-level contract, not claimed: does not discharge) ensures result1 == nil && !drkey ==> uint64(s.DstIA) == slayers.be64(buf[20], buf[21], buf[22], buf[23], buf[24], buf[25], buf[26], buf[27]) && uint64(s.SrcIA) == slayers.be64(buf[28], buf[29], buf[30], buf[31], buf[32], buf[33], buf[34], buf[35])
+//@   # (byte-level contract, not claimed: does not discharge) ensures result1 == nil && withDst ==> forall j int :: 0 <= j && j < len(s.RawDstAddr) ==> buf[20+iaLen+j] == s.RawDstAddr[j]
+//@   # (byte-level contract, not claimed: does not discharge) ensures result1 == nil && withSrc ==> forall j int :: 0 <= j && j < len(s.RawSrcAddr) ==> buf[20+iaLen+dl+j] == s.RawSrcAddr[j]
 //@   # 4. the path with its mutable fields zeroed
-//@   ensures result1 == nil && typeis(s.Path, *scion.Raw) ==> result0 == po+len(r.Raw) && buf[po] == 0 && buf[po+1] == (r.PathMeta.SegLen[0]&0x3f)>>4 && buf[po+2] == (r.PathMeta.SegLen[0]&0xf)<<4|(r.PathMeta.SegLen[1]&0x3f)>>2 && buf[po+3] == (r.PathMeta.SegLen[1]&0x3)<<6|r.PathMeta.SegLen[2]&0x3f
-//@   ensures result1 == nil && typeis(s.Path, *scion.Raw) ==> forall j int :: 4 <= j && j < len(r.Raw) ==> buf[po+j] == ite(mutPos(r.NumINF, r.NumHops, j), 0, old(r.Raw[j]))
-//@   ensures result1 == nil && typeis(s.Path, *onehop.Path) ==> result0 == po+32 && buf[po] == ite(o.Info.ConsDir, 1, 0)|ite(o.Info.Peer, 2, 0) && buf[po+1] == 0 && buf[po+2] == 0 && buf[po+3] == 0 && buf[po+4] == uint8(o.Info.Timestamp>>24) && buf[po+5] == uint8(o.Info.Timestamp>>16) && buf[po+6] == uint8(o.Info.Timestamp>>8) && buf[po+7] == uint8(o.Info.Timestamp) && buf[po+8] == 0 && buf[po+9] == o.FirstHop.ExpTime && buf[po+10] == uint8(o.FirstHop.ConsIngress>>8) && buf[po+11] == uint8(o.FirstHop.ConsIngress) && buf[po+12] == uint8(o.FirstHop.ConsEgress>>8) && buf[po+13] == uint8(o.FirstHop.ConsEgress) && buf[po+14] == o.FirstHop.Mac[0] && buf[po+15] == o.FirstHop.Mac[1] && buf[po+16] == o.FirstHop.Mac[2] && buf[po+17] == o.FirstHop.Mac[3] && buf[po+18] == o.FirstHop.Mac[4] && buf[po+19] == o.FirstHop.Mac[5]
-//@   ensures result1 == nil && typeis(s.Path, *onehop.Path) ==> buf[po+20] == 0 && buf[po+21] == 0 && buf[po+22] == 0 && buf[po+23] == 0 && buf[po+24] == 0 && buf[po+25] == 0 && buf[po+26] == 0 && buf[po+27] == 0 && buf[po+28] == 0 && buf[po+29] == 0 && buf[po+30] == 0 && buf[po+31] == 0
-//@   ensures result1 == nil && typeis(s.Path, empty.Path) ==> result0 == po
+//@   # (byte-level contract, not claimed: does not discharge) ensures result1 == nil && typeis(s.Path, *scion.Raw) ==> result0 == po+len(r.Raw) && buf[po] == 0 && buf[po+1] == (r.PathMeta.SegLen[0]&0x3f)>>4 && buf[po+2] == (r.PathMeta.SegLen[0]&0xf)<<4|(r.PathMeta.SegLen[1]&0x3f)>>2 && buf[po+3] == (r.PathMeta.SegLen[1]&0x3)<<6|r.PathMeta.SegLen[2]&0x3f
+//@   # (byte-level contract, not claimed: does not discharge) ensures result1 == nil && typeis(s.Path, *scion.Raw) ==> forall j int :: 4 <= j && j < len(r.Raw) ==> buf[po+j] == ite(mutPos(r.NumINF, r.NumHops, j), 0, old(r.Raw[j]))
+//@   # (byte-level contract, not claimed: does not discharge) ensures result1 == nil && typeis(s.Path, *onehop.Path) ==> result0 == po+32 && buf[po] == ite(o.Info.ConsDir, 1, 0)|ite(o.Info.Peer, 2, 0) && buf[po+1] == 0 && buf[po+2] == 0 && buf[po+3] == 0 && buf[po+4] == uint8(o.Info.Timestamp>>24) && buf[po+5] == uint8(o.Info.Timestamp>>16) && buf[po+6] == uint8(o.Info.Timestamp>>8) && buf[po+7] == uint8(o.Info.Timestamp) && buf[po+8] == 0 && buf[po+9] == o.FirstHop.ExpTime && buf[po+10] == uint8(o.FirstHop.ConsIngress>>8) && buf[po+11] == uint8(o.FirstHop.ConsIngress) && buf[po+12] == uint8(o.FirstHop.ConsEgress>>8) && buf[po+13] == uint8(o.FirstHop.ConsEgress) && buf[po+14] == o.FirstHop.Mac[0] && buf[po+15] == o.FirstHop.Mac[1] && buf[po+16] == o.FirstHop.Mac[2] && buf[po+17] == o.FirstHop.Mac[3] && buf[po+18] == o.FirstHop.Mac[4] && buf[po+19] == o.FirstHop.Mac[5]
+//@   # (byte-level contract, not claimed: does not discharge) ensures result1 == nil && typeis(s.Path, *onehop.Path) ==> buf[po+20] == 0 && buf[po+21] == 0 && buf[po+22] == 0 && buf[po+23] == 0 && buf[po+24] == 0 && buf[po+25] == 0 && buf[po+26] == 0 && buf[po+27] == 0 && buf[po+28] == 0 && buf[po+29] == 0 && buf[po+30] == 0 && buf[po+31] == 0
+//@   # (byte-level contract, not claimed: does not discharge) ensures result1 == nil && typeis(s.Path, empty.Path) ==> result0 == po
